@@ -46,6 +46,9 @@ def probe_file(offset: int, types: List[Base], name: str) -> Tuple[File, List[Tu
         m.add(Field("ea", Arr(Ref(al), 3), 9))      # array whose ELEMENT type is an alias of the base type
         m.add(Field("rows", Arr(Ref(row), 2), 10))
         m.add(Field("tail", Base("bool"), 11))
+        # a longer array (bulk-copy thresholds are usually a handful of elements) followed by its own guard bit
+        m.add(Field("a9", Arr(Base(t.kind, t.width), 9), 12))
+        m.add(Field("tail_b", Base("bool"), 13))
         f.add(m)
         out.append((m, t))
     return f, out
@@ -83,15 +86,16 @@ def probe_values(m: Message, t: Base, full: bool) -> List[Tuple[str, Any]]:
     pad = next((it for it in items if it.path == (1,)), None)
     if pad is not None:
         zero = ref.set_leaf(m, zero, pad.path, (1 << pad.width) - 1)
-    probed = [it for it in items if it.path[0] in (2, 3, 4, 5, 6, 7, 8, 9, 10)]
+    probed = [it for it in items if it.path[0] in (2, 3, 4, 5, 6, 7, 8, 9, 10, 12)]
     out: List[Tuple[str, Any]] = []
     for b in basis(t, full):
         allv = zero
         for it in probed:
             allv = ref.set_leaf(m, allv, it.path, b)
         allv = ref.set_leaf(m, allv, (11,), 1)
+        allv = ref.set_leaf(m, allv, (13,), 1)
         out.append((f"all={b}", allv))
-    pos_sample = probed if full else [it for it in probed if it.path in ((2,), (3, 0), (4, 1), (6, 4), (7,), (8, 2), (9, 1), (10, 0, 1), (10, 1, 0))]
+    pos_sample = probed if full else [it for it in probed if it.path in ((2,), (3, 0), (4, 1), (6, 4), (7,), (8, 2), (9, 1), (10, 0, 1), (10, 1, 0), (12, 0), (12, 8))]
     for it in pos_sample:
         for b in basis(t, full):
             if b == 0:
@@ -101,4 +105,4 @@ def probe_values(m: Message, t: Base, full: bool) -> List[Tuple[str, Any]]:
 
 
 def position_of(path: Tuple) -> str:
-    return {2: "scalar", 3: "array", 4: "array", 5: "array", 6: "array", 7: "alias", 8: "alias-of-array", 9: "array-of-alias", 10: "array-of-alias-of-array"}.get(path[0], "other")
+    return {2: "scalar", 3: "array", 4: "array", 5: "array", 6: "array", 7: "alias", 8: "alias-of-array", 9: "array-of-alias", 10: "array-of-alias-of-array", 12: "array"}.get(path[0], "other")
